@@ -22,7 +22,7 @@ def solve(graph, rep, backend, setting=1):
     from graphiq.metrics import Infidelity
     from graphiq.solvers.time_reversed_solver import TimeReversedSolver
     n = graph.number_of_nodes()
-    tg = {"n": n, "edges": cz.graph_edges1(graph)}
+    tg = {"n": n, "edges": cz.graph_edges1(graph), "map": []}
     dummy = {"nq": n, "nc": 0, "np": n, "ne": 0, "ops": [], "wires": {}}
     try:
         target = cz.target_state(graph, rep)
